@@ -614,15 +614,28 @@ func (r *C15Run) classifyInexact(w string, wd *WorldDef, got, want *Dump) {
 			}
 		case n == "GLX-INGRESS" || n == "GLX-EGRESS":
 			// leftover hooks: of vanished pods / old addresses, or consequences of D17
-			stale := false
+			// a leftover hook is D13 only if it belongs to no pod of this node any more, or carries an address the
+			// pod no longer has; a leftover hook of a current pod with its current address is something else
+			stale, other := false, false
 			wantSet := map[string]bool{}
 			for _, x := range wrs {
 				wantSet[strings.Join(x, " ")] = true
 			}
 			for _, x := range rs {
-				if !wantSet[strings.Join(x, " ")] {
+				if wantSet[strings.Join(x, " ")] {
+					continue
+				}
+				q, isLocal := local[x[len(x)-1]]
+				if len(x) >= 2 && isLocal && q.HasIP && x[1] == IPStr(q.IP)+"/32" {
+					other = true
+				} else {
 					stale = true
 				}
+			}
+			if other && r.d17 {
+				note("stale-policy-chain-referenced-sync-fails", "hook rules of "+n+" not updated: the pod-chain batch failed after the failed policy batch")
+			} else if other {
+				note("hook-not-removed", "hook rule of a current pod that should not be hooked in "+n+": "+got.chainCanon(n)+" vs "+want.chainCanon(n))
 			}
 			if stale {
 				note("stale-pod-chain-not-collected", "hook rules in "+n+" of pods that vanished or changed address are never removed: "+
